@@ -23,6 +23,9 @@ import (
 	"runtime"
 	"strconv"
 	"strings"
+	"sync"
+	"sync/atomic"
+	"time"
 
 	"github.com/ctessum/geom"
 	"github.com/ctessum/geom/encoding/geojson"
@@ -228,6 +231,9 @@ func wide(r *vproto.Rng, k, level, w int) geom.Geom {
 	cnt := func(l int) int {
 		if l == level {
 			return w
+		}
+		if w > 2000 { // keep the text (and the judge's parse) small: the other levels have one member
+			return 1
 		}
 		return r.Range(1, 2)
 	}
@@ -690,7 +696,7 @@ func gen(seed uint64, tier string) {
 		}
 	}
 	// wide geometries: one nesting level with many members
-	nw := 4
+	nw := 6
 	if tier == "thorough" {
 		nw = 40
 	}
@@ -698,7 +704,11 @@ func gen(seed uint64, tier string) {
 	for i := 0; i < nw; i++ {
 		for k := 1; k <= 5; k++ {
 			for level := 0; level < depth[k]; level++ {
-				emit(wide(r, k, level, []int{65, 129, 257, 1025}[r.Intn(4)]))
+				sizes := []int{65, 129, 257, 1025, 2049, 65, 129, 257}
+				if tier == "thorough" {
+					sizes = []int{65, 129, 257, 1025, 2049, 4097, 1023, 2047}
+				}
+				emit(wide(r, k, level, sizes[(i+r.Intn(2)*3)%len(sizes)]))
 			}
 		}
 	}
@@ -724,6 +734,58 @@ func gen(seed uint64, tier string) {
 			fmt.Fprintf(out, " %s", vproto.GeomToks(g))
 		}
 		fmt.Fprintln(out)
+	}
+	// decode histories: Decode(Encode g_i) for a window of geometries; the returned geometries are kept and
+	// re-read after the whole batch (a decoded geometry must not share storage with what a later Decode writes)
+	for i := 0; i < nb; i++ {
+		k := r.Range(2, 6)
+		fmt.Fprintf(out, "dbatch %d", k)
+		for j := 0; j < k; j++ {
+			var g geom.Geom
+			switch {
+			case i%6 == 5 && j == 0:
+				g = wide(r, 1+r.Intn(5), 0, []int{65, 129}[r.Intn(2)])
+			case i%6 == 4 && j == 1: // a later result large enough to recycle any arena/pool of a few thousand vertices
+				n := []int{4100, 8200, 1030, 2060}[(i/6)%4]
+				ls := make(geom.LineString, n)
+				for q := range ls {
+					ls[q] = geom.Point{X: float64(q), Y: coord(r, false)}
+				}
+				g = ls
+			case j%3 == 1:
+				g = edgeGeoms(edges[r.Intn(len(edges))], r.Intn(2))[r.Intn(14)]
+			default:
+				g = cfg{laterEmpty: true}.geom(r, r.Intn(6))
+			}
+			fmt.Fprintf(out, " %s", vproto.GeomToks(g))
+		}
+		fmt.Fprintln(out)
+	}
+	// concurrent callers (generic probe (g)): Encode/Decode/ToGeoJSON/FromGeoJSON are pure functions of their
+	// arguments. One line = reference answer computed alone, then the same call repeated by 8 goroutines on private
+	// copies while 8 others hammer the API on unrelated large MultiPolygons (built in impl from the seed in the line).
+	ncc := 60
+	if tier == "thorough" {
+		ncc = 600
+	}
+	for i := 0; i < ncc; i++ {
+		op := []string{"enc", "rt", "tog", "dec", "from"}[i%5]
+		var g geom.Geom
+		rounds := 40
+		switch {
+		case i%4 == 0: // large target: calls of the 8 callers overlap each other, not only the noise
+			g = wide(r, 1+r.Intn(5), 0, []int{257, 1025}[r.Intn(2)])
+			rounds = 6
+		case i%4 == 1:
+			g = edgeGeoms(edges[r.Intn(len(edges))], r.Intn(2))[r.Intn(14)]
+		case i%16 == 2:
+			g = cfg{nonFinite: true}.geom(r, r.Intn(6))
+		case i%16 == 6:
+			g = cfg{}.geom(r, 6+r.Intn(2))
+		default:
+			g = cfg{laterEmpty: true}.geom(r, r.Intn(6))
+		}
+		fmt.Fprintf(out, "cc %s %d %d %s\n", op, rounds, r.Intn(1<<30), vproto.GeomToks(g))
 	}
 	// the nil interface value (outside the property: ToGeoJSON/Encode panic in reflect.TypeOf(nil).String()),
 	// FromGeoJSON(nil), and nil slices at every level (Encode writes [] for nil and for empty: make(...))
@@ -990,6 +1052,179 @@ func renderings(g geom.Geom) string {
 	return b.String()
 }
 
+func togString(g geom.Geom) string {
+	o, err := geojson.ToGeoJSON(g)
+	if err != nil {
+		return "err " + errKind(err)
+	}
+	var b strings.Builder
+	b.WriteString("ok " + hexs(o.Type))
+	switch v := o.Coordinates.(type) {
+	case []float64:
+		b.WriteString(" C1")
+		c1(&b, v)
+	case [][]float64:
+		b.WriteString(" C2")
+		c2(&b, v)
+	case [][][]float64:
+		b.WriteString(" C3")
+		c3(&b, v)
+	case [][][][]float64:
+		b.WriteString(" C4")
+		c4(&b, v)
+	default:
+		fmt.Fprintf(&b, " UNKNOWN(%T)", v)
+	}
+	return b.String()
+}
+
+// noiseGeom: a MultiPolygon big enough (about a thousand vertices, ~40 kB of text) for its Encode/Decode to overlap other calls
+func noiseGeom(r *vproto.Rng) geom.Geom {
+	m := make(geom.MultiPolygon, r.Range(2, 4))
+	for i := range m {
+		m[i] = make(geom.Polygon, r.Range(10, 60))
+		for j := range m[i] {
+			m[i][j] = make(geom.Path, r.Range(4, 16))
+			for k := range m[i][j] {
+				m[i][j][k] = geom.Point{X: coord(r, false), Y: coord(r, false)}
+			}
+		}
+	}
+	return m
+}
+
+// concurrent runs one `cc` line: the answer the judge sees is the first concurrent answer that differs from the
+// reference computed alone (or the reference when all agree), prefixed by what happened.
+func concurrent(op string, rounds int, seed uint64, toks string) string {
+	parse := func() geom.Geom { return vproto.NewParser(toks).Geom() } // a private deep copy per caller
+	// the operation on a private argument; `doc` are the reference bytes (for dec / from)
+	call := func(g geom.Geom, doc []byte) (ans string) {
+		if pan := vproto.Safe(func() {
+			switch op {
+			case "enc":
+				buf, err := geojson.Encode(g)
+				if err != nil {
+					ans = "err " + errKind(err)
+				} else {
+					ans = "ok x" + hex.EncodeToString(buf)
+				}
+			case "tog":
+				ans = togString(g)
+			case "rt":
+				buf, err := geojson.Encode(g)
+				if err != nil {
+					ans = "encerr " + errKind(err)
+				} else {
+					ans = result(geojson.Decode(buf))
+				}
+			case "dec":
+				if doc == nil {
+					ans = "encerr"
+				} else {
+					ans = result(geojson.Decode(append([]byte(nil), doc...)))
+				}
+			case "from":
+				if doc == nil {
+					ans = "encerr"
+				} else {
+					var o struct {
+						Type        string      `json:"type"`
+						Coordinates interface{} `json:"coordinates"`
+					}
+					if err := json.Unmarshal(doc, &o); err != nil {
+						ans = "err " + errKind(err)
+					} else {
+						ans = result(geojson.FromGeoJSON(&geojson.Geometry{Type: o.Type, Coordinates: o.Coordinates}))
+					}
+				}
+			}
+		}); pan != "" {
+			ans = "panic " + pan
+		}
+		return ans
+	}
+	g0 := parse()
+	var doc []byte
+	encErr := ""
+	if op == "dec" || op == "from" {
+		b, err := geojson.Encode(g0)
+		if err != nil {
+			encErr = "encerr " + errKind(err)
+		} else {
+			doc = b
+		}
+	}
+	if encErr != "" {
+		return "same " + encErr
+	}
+	ref := call(g0, doc)
+	before := vproto.GeomToks(g0)
+	var stop int32
+	var mu sync.Mutex
+	first := ""
+	report := func(s string) {
+		mu.Lock()
+		if first == "" {
+			first = s
+		}
+		mu.Unlock()
+		atomic.StoreInt32(&stop, 1)
+	}
+	var wg, nwg sync.WaitGroup
+	for w := 0; w < 8; w++ { // noise: unrelated large inputs through the same API
+		nwg.Add(1)
+		go func(w int) {
+			defer nwg.Done()
+			nr := vproto.NewRng(seed + uint64(w)*7919)
+			ng := noiseGeom(nr)
+			for atomic.LoadInt32(&stop) == 0 {
+				vproto.Safe(func() {
+					if buf, err := geojson.Encode(ng); err == nil {
+						geojson.Decode(buf)
+					}
+					geojson.ToGeoJSON(ng)
+				})
+			}
+		}(w)
+	}
+	for w := 0; w < 8; w++ {
+		wg.Add(1)
+		go func() {
+			defer wg.Done()
+			g := parse()
+			var d []byte
+			if doc != nil {
+				d = append([]byte(nil), doc...)
+			}
+			for i := 0; i < rounds && atomic.LoadInt32(&stop) == 0; i++ {
+				if a := call(g, d); a != ref {
+					report("differs " + a)
+					return
+				}
+				if vproto.GeomToks(g) != before {
+					report("argument-modified " + vproto.GeomToks(g))
+					return
+				}
+				if d != nil && string(d) != string(doc) {
+					report("argument-modified document")
+					return
+				}
+			}
+		}()
+	}
+	wg.Wait()
+	atomic.StoreInt32(&stop, 1)
+	nwg.Wait()
+	// a goroutine the library itself spawned and that panics kills the process: give it the chance to do so
+	// while this line is still the current one (the orchestrator then records `crash` for THIS line)
+	runtime.Gosched()
+	time.Sleep(time.Millisecond)
+	if first != "" {
+		return first
+	}
+	return "same " + ref
+}
+
 func impl() {
 	vproto.Lines(func(line string, out *bufio.Writer) {
 		p := vproto.NewParser(line)
@@ -1053,6 +1288,46 @@ func impl() {
 						b.WriteString("err " + errKind(errs[i]))
 					} else {
 						b.WriteString("ok x" + hex.EncodeToString([]byte(copies[i])) + " x" + hex.EncodeToString(kept[i]))
+					}
+				}
+				res = b.String()
+			case "cc":
+				op := p.Next()
+				rounds := p.Int()
+				seed := uint64(p.Int())
+				toks := p.Rest()
+				res = concurrent(op, rounds, seed, toks)
+				if op == "enc" {
+					res += " |" + renderings(vproto.NewParser(toks).Geom())
+				}
+			case "dbatch":
+				n := p.Int()
+				kept := make([]geom.Geom, n) // the geometries exactly as Decode returned them
+				first := make([]string, n)   // their tokens immediately after the call
+				errs := make([]string, n)
+				for i := 0; i < n; i++ {
+					g := p.Geom()
+					buf, err := geojson.Encode(g)
+					if err != nil {
+						errs[i] = "encerr " + errKind(err)
+						continue
+					}
+					kept[i], err = geojson.Decode(buf)
+					if err != nil {
+						errs[i] = "err " + errKind(err)
+						continue
+					}
+					first[i] = vproto.GeomToks(kept[i])
+				}
+				var b strings.Builder
+				for i := 0; i < n; i++ {
+					if i > 0 {
+						b.WriteString(" ; ")
+					}
+					if errs[i] != "" {
+						b.WriteString(errs[i])
+					} else {
+						b.WriteString("ok " + first[i] + " | " + vproto.GeomToks(kept[i]))
 					}
 				}
 				res = b.String()
